@@ -187,10 +187,32 @@ class SymEval:
                 if inner[0] == "s" and not isinstance(inner[1], PW):
                     return ("s", self.alg.atom("p:trunc[%r]" % inner[1]))
                 return ("unk", "a float-to-integer cast truncates and saturates (not the identity)")
+            INTW = {"u8": 8, "u16": 16, "u32": 32, "u64": 64, "usize": 64, "u128": 128, "i8": 7, "i16": 15, "i32": 31, "i64": 63, "isize": 63, "i128": 127}
+            dst_ty = e.get("ty") or ""
+            if src_ty in INTW and dst_ty in INTW and INTW[dst_ty] < INTW[src_ty]:
+                # a narrowing integer cast keeps the low bits only: an opaque function of the value
+                inner = self.ev(e["e"], env)
+                if inner[0] == "s" and not isinstance(inner[1], PW):
+                    return ("s", self.alg.atom("p:narrow[%s|%r]" % (dst_ty, inner[1])))
+                return ("unk", "a narrowing integer cast (not the identity)")
+            if src_ty == "f64" and (e.get("ty") or "") == "f32":
+                # rounding to single precision: an opaque function of the value (a later widening does not bring the lost digits back)
+                inner = self.ev(e["e"], env)
+                if inner[0] == "s" and not isinstance(inner[1], PW):
+                    ats = inner[1].atoms()
+                    pre = "p:" if ats and all(a.startswith("p:") for a in ats) else ""
+                    return ("s", self.alg.atom("%sround32[%r]" % (pre, inner[1])))
+                return ("unk", "a narrowing float cast rounds (not the identity)")
             return self.ev(e["e"], env)
         if k == "Unary" and e.get("op") == "Neg":
             v = self.ev(e["e"], env)
             return self.map1(v, lambda x: -x)
+        if k == "Binary" and e.get("op") in ("Div", "Rem") and (e.get("ty") or "") in ("usize", "u8", "u16", "u32", "u64", "u128", "isize", "i8", "i16", "i32", "i64", "i128"):
+            # integer division rounds towards zero: an opaque function of its operands, not their quotient
+            l_, r_ = self.ev(e["l"], env), self.ev(e["r"], env)
+            if l_[0] == "s" and r_[0] == "s" and not isinstance(l_[1], PW) and not isinstance(r_[1], PW):
+                return ("s", self.alg.atom("p:i%s[%r|%r]" % (e["op"].lower(), l_[1], r_[1])))
+            return ("unk", "integer division")
         if k == "Binary" and e.get("op") in ("Add", "Sub", "Mul", "Div"):
             return self.arith(e["op"], self.ev(e["l"], env), self.ev(e["r"], env))
         if k == "Tuple":
@@ -319,6 +341,33 @@ class SymEval:
             if isinstance(t[1], PW) or isinstance(f[1], PW):
                 return ("unk", "nested piecewise value")
             return ("s", PW(key, t[1], f[1], (cond["op"], l - r)))
+        # a conjunction / disjunction of such comparisons
+        if cond.get("k") == "LogicalOp" and t[0] == "s" and f[0] == "s" and not isinstance(t[1], PW) and not isinstance(f[1], PW):
+            def tree(cn):
+                cn = strip(cn)
+                if cn.get("k") == "LogicalOp":
+                    a_, b_ = tree(cn["l"]), tree(cn["r"])
+                    if a_ is None or b_ is None:
+                        return None
+                    return (cn["op"], [a_, b_])
+                if cn.get("k") == "Binary" and cn.get("op") in ("Gt", "Ge", "Lt", "Le"):
+                    try:
+                        l = self.scalar(self.ev(cn["l"], env))
+                        r = self.scalar(self.ev(cn["r"], env))
+                    except Abstain:
+                        return None
+                    if isinstance(l, PW) or isinstance(r, PW):
+                        return None
+                    return (cn["op"], l - r)
+                return None
+
+            def key(cf):
+                if cf[0] in ("And", "Or"):
+                    return "%s(%s)" % (cf[0], "|".join(key(x_) for x_ in cf[1]))
+                return "%s(%r)" % (cf[0], cf[1])
+            cf = tree(cond)
+            if cf is not None:
+                return ("s", PW(key(cf), t[1], f[1], cf))
         # any other condition (tracking flags): both branches are possible values
         return self.mk_alt([t, f])
 
@@ -486,6 +535,9 @@ class SymEval:
             if m == "abs":
                 # |x|: an opaque function of its argument (never equal to the argument itself)
                 def _abs(v):
+                    ats = v.atoms() if hasattr(v, "atoms") else None
+                    if x[0] == "s" and ats and all(a.startswith("p:") for a in ats):
+                        return self.alg.atom("p:abs[%r]" % v)      # a function of scalar parameters only: itself a scalar parameter
                     return self.alg.atom("abs[%r]" % v)
                 return self.map1(x, _abs)
             if m in ("copysign",) and len(args) == 2:
@@ -532,6 +584,10 @@ class SymEval:
         if r == "corgi::array::Array::values" and args:
             a = self.ev(args[0], env)
             return ("v", a[1]) if a[0] == "arr" else ("unk", "values() of %s" % a[0])
+        # ---- lossless numeric conversions (From between primitive numbers exists only where every value is representable)
+        if c == "core::convert::From::from" and len(args) == 1 and (e.get("ty") or "") in ("f32", "f64") \
+                and (strip(args[0]).get("ty") or "") in ("u8", "u16", "u32", "i8", "i16", "i32", "f32", "f64", "bool"):
+            return self.ev(args[0], env)
         # ---- value-preserving calls
         if (c in PASS or r in PASS or r == "<%s as core::clone::Clone>::clone" % ARRAY) and args:
             return self.ev(args[0], env)
